@@ -156,7 +156,7 @@ def gen_history(r, fmt, chans, n, pattern, nframes, resets):
 def gen_cases(rng, tier, nostd_ok):
     items = []
     quick = tier == "quick"
-    n_hist = 300 if quick else 1400
+    n_hist = 300 if quick else 1100
     budget = 170 if quick else 600           # frames x channels per history
     patterns = ["nominal", "nominal", "loudquiet", "loudquiet", "const", "edge", "large", "nominal"]
     for k in range(n_hist):
